@@ -247,9 +247,9 @@ pub fn decode_clock(bytes: &[u8]) -> ClockScn {
                 let t = d.pick(&[React::Terminate, React::Error]);
                 let mut react = vec![React::Nothing; k];
                 react.push(t);
-                SinkSpec { react, react_default: React::Nothing, credit: false, pull_after_end: false }
+                SinkSpec { react, react_default: React::Nothing, credit: false, pull_after_end: false, rogue: false }
             }
-            _ => SinkSpec { react: vec![], react_default: React::Pull, credit: false, pull_after_end: false },
+            _ => SinkSpec { react: vec![], react_default: React::Pull, credit: false, pull_after_end: false, rogue: false },
         })
         .collect();
     let mut steps = vec![CStep::Subscribe { src: 0, spawn: SpawnPlan::Ok, inline_poll: false }];
